@@ -4,10 +4,13 @@
 #include "tjv.h"
 #include "TinyJAMBU.h"
 int tjv_calls;
-void tinyjambu_hkdf_extract(tinyjambu_hkdf_state_t *s, const unsigned char *k, size_t kl, const unsigned char *sa, size_t sl) { (void)s; (void)k; (void)kl; (void)sa; (void)sl; tjv_calls++; }
-int tinyjambu_hkdf_expand(tinyjambu_hkdf_state_t *s, const unsigned char *i, size_t il, unsigned char *o, size_t ol) { (void)s; (void)i; (void)il; (void)o; (void)ol; tjv_calls++; return 0; }
-void tinyjambu_hkdf_free(tinyjambu_hkdf_state_t *s) { (void)s; }
-void tinyjambu_clean(void *b, unsigned n) { (void)b; (void)n; }
+static tinyjambu_hkdf_state_t *st0; static const unsigned char *a_key, *a_salt, *a_info; static unsigned char *a_out; static size_t a_kl, a_sl, a_il, a_ol; static int wiped;
+void tinyjambu_hkdf_extract(tinyjambu_hkdf_state_t *s, const unsigned char *k, size_t kl, const unsigned char *sa, size_t sl)
+{ __CPROVER_assert(tjv_calls == 0 && k == a_key && kl == a_kl && sa == a_salt && sl == a_sl, "C13: one-shot = extract(key, salt) first, with the caller's arguments"); st0 = s; tjv_calls++; }
+int tinyjambu_hkdf_expand(tinyjambu_hkdf_state_t *s, const unsigned char *i, size_t il, unsigned char *o, size_t ol)
+{ __CPROVER_assert(tjv_calls == 1 && s == st0 && i == a_info && il == a_il && o == a_out && ol == a_ol, "C13: then ONE expand(info, out, outlen) on the same state"); tjv_calls++; return 0; }
+void tinyjambu_hkdf_free(tinyjambu_hkdf_state_t *s) { __CPROVER_assert(tjv_calls == 2 && s == st0, "C13/C20: state wiped last"); wiped = 1; }
+void tinyjambu_clean(void *b, unsigned n) { __CPROVER_assert(tjv_calls == 2 && b == (void *)st0 && n == sizeof(tinyjambu_hkdf_state_t), "C13/C20: the private state is wiped whole"); wiped = 1; }
 size_t tjw_outlen;
 void harness(void)
 {
@@ -15,10 +18,10 @@ void harness(void)
   tjw_outlen = outlen;
   unsigned char out[1], k[1], s[1], i[1];
   unsigned char o0 = out[0];
-  tjv_calls = 0;
+  tjv_calls = 0; wiped = 0; a_key = k; a_salt = s; a_info = i; a_out = out; a_kl = kl; a_sl = sl; a_il = il; a_ol = outlen;
   int r = tinyjambu_hkdf(out, outlen, k, kl, s, sl, i, il);
   TJV_REACH_HERE("after one-shot hkdf (cap)");
   __CPROVER_assert((outlen > 8160) == (r == -1), "C13: one-shot HKDF refuses exactly the requests beyond 8160 bytes with -1");
   __CPROVER_assert(outlen > 8160 ==> (tjv_calls == 0 && out[0] == o0), "C13: a refused one-shot request writes nothing and derives nothing");
-  __CPROVER_assert(outlen <= 8160 ==> (r == 0 && tjv_calls == 2), "C13: an accepted one-shot request is extract followed by one expand");
+  __CPROVER_assert(outlen <= 8160 ==> (r == 0 && tjv_calls == 2 && wiped), "C13: an accepted one-shot request is extract followed by one expand, then the state is wiped");
 }
